@@ -9,7 +9,9 @@ from vf.runner import use_repo
 LEVEL = 'exploration'
 RULE = ('Complete enumeration of (supported protocol version, state, '
         'direction) tables, walked three times (oldest first, newest first, '
-        'oldest first) with every pass judged and the passes compared: every class in get_packets(context) must resolve '
+        'oldest first, then with one long-lived context per version used '
+        'alternately oldest/newest, then with a single context whose '
+        'version is re-assigned in place) with every pass judged and the passes compared: every class in get_packets(context) must resolve '
         'to a non-negative int id, ids pairwise distinct, and the id->class '
         'dict built by the matching PacketReactor must map every id to its '
         'owner, identically over repeated constructions.  A table is '
@@ -43,10 +45,11 @@ class _Conn(object):
         self.context = context
 
 
-def check_table(ctx, version, direction, state, judged=True):
+def check_table(ctx, version, direction, state, judged=True, context=None):
     from minecraft.networking.connection import ConnectionContext
     get_packets = dict(((d, s), g) for d, s, g in tables())[direction, state]
-    context = ConnectionContext(protocol_version=version)
+    if context is None:
+        context = ConnectionContext(protocol_version=version)
     case = {'version': version, 'direction': direction, 'state': state}
     try:
         classes = sorted(get_packets(context), key=lambda c: c.__name__)
@@ -157,7 +160,37 @@ def run(ctx):
                                      else 'oldest first again', assign),
                         {'version': v, 'direction': direction,
                          'state': state, 'passes': True})
-    ctx.extra['passes'] = 3
+    # ... nor on which other connections exist: one long-lived context per
+    # version, all created up front (as a process holding several
+    # connections has them), used alternately without any construction or
+    # version assignment in between; then a single context whose version is
+    # re-assigned in place (as connect() does when it negotiates).
+    from minecraft.networking.connection import ConnectionContext
+    live = {v: ConnectionContext(protocol_version=v) for v in supported}
+    zig = [w for pair in zip(supported, supported[::-1]) for w in pair]
+    moving = ConnectionContext(protocol_version=supported[0])
+    for label, order in (('long-lived contexts used alternately', zig),
+                         ('one context re-assigned in place', zig)):
+        for v in order:
+            if label.startswith('one'):
+                moving.protocol_version = v
+                c = moving
+            else:
+                c = live[v]
+            for direction, state, _ in tables():
+                ctx.count()
+                res = check_table(ctx, v, direction, state, context=c)
+                if res is not None and res[0] != first.get((v, direction,
+                                                            state)):
+                    ctx.violation(
+                        'context-dependent v=%d %s/%s' % (v, direction, state),
+                        'protocol %d %s %s: with %s the table is %r; with a '
+                        'fresh context it is %r'
+                        % (v, direction, state, label, res[0],
+                           first.get((v, direction, state))),
+                        {'version': v, 'direction': direction,
+                         'state': state, 'passes': True})
+    ctx.extra['passes'] = 5
     rep = 0
     for v in others:
         for direction, state, _ in tables():
